@@ -84,10 +84,16 @@ func (b *casBufferWithBackgroundTask) IntoWriter(w io.Writer) error {
 func (b *casBufferWithBackgroundTask) ReadAt(p []byte, off int64) (int, error) {
 	n, err := b.base.ReadAt(p, off)
 	<-b.task.completion
-	if err != nil {
+	if err != nil && err != io.EOF {
 		return n, err
 	}
-	return n, b.task.err
+	if b.task.err != nil {
+		// A short read that reaches the end of the object is
+		// reported as io.EOF. That is still a completed read,
+		// so it must not hide the failure of the task.
+		return n, b.task.err
+	}
+	return n, err
 }
 
 func (b *casBufferWithBackgroundTask) ToProto(m proto.Message, maximumSizeBytes int) (proto.Message, error) {
